@@ -368,7 +368,7 @@ def run_check(mod, tier, seed, jobs):
 # reporting
 # --------------------------------------------------------------------------------------
 def write_replay(pid, v, idx):
-    d = os.path.join(HOME, 'replays', pid)
+    d = os.path.join(os.environ.get('VERIF_REPLAY_DIR') or os.path.join(HOME, 'replays'), pid)
     os.makedirs(d, exist_ok=True)
     name = '%s_%s_%02d.json' % (pid, v['subcheck'], idx)
     path = os.path.join(d, name)
@@ -414,7 +414,7 @@ def write_evidence(mod, tier, seed, total, per_sub, wall, n_viol, extra=None):
         'wall_s': round(wall, 2),
         'violations': int(n_viol),
     }
-    path = os.path.join(HOME, 'evidence', pid + '.json')
+    path = os.path.join(os.environ.get('VERIF_EVIDENCE_DIR') or os.path.join(HOME, 'evidence'), pid + '.json')
     os.makedirs(os.path.dirname(path), exist_ok=True)
     try:
         import jsonschema
